@@ -281,7 +281,8 @@ def load_tu(unit_cpp, include_dirs, defines=(), std='c++14', cache_dir=None, ext
 
 class Lower:
     def __init__(self, tu, std, rec_alias=(), have_contract=lambda a: False, have_loop=lambda a, k: False,
-                 fn_alias=None, opaque=()):
+                 fn_alias=None, opaque=(), have_macro=lambda name: False):
+        self.have_macro = have_macro
         self.tu = tu
         self.std = std
         self.rec_alias = list(rec_alias)      # [(regex on normalised record type string, alias)]
@@ -980,7 +981,9 @@ class Lower:
             if self.pre or self.pending_exc_check:
                 raise Unsupported('call that may throw in a loop increment')
             tag = self.loop_tag()
+            k = self.loopk
             out.append(I + '  for (; %s; %s)%s\n%s' % (sc, sn, tag, self.block(body, ind + 1)))
+            out += self.ghost_after(k, ind + 1)
             out.append(I + '}')
             return '\n'.join(out)
         if k == 'CXXForRangeStmt':
@@ -997,11 +1000,13 @@ class Lower:
             if self.pre or self.pending_exc_check:
                 raise Unsupported('may-throw in range-for header')
             tag = self.loop_tag()
+            k = self.loopk
             out.append(I + '  for (; %s; %s)%s' % (sc, sn, tag))
             out.append(I + '  {')
             out.append(self.stmt(lv, ind + 2))
             out.append(self.block(body, ind + 2))
             out.append(I + '  }')
+            out += self.ghost_after(k, ind + 1)
             out.append(I + '}')
             return '\n'.join(out)
         if k == 'WhileStmt':
@@ -1074,6 +1079,13 @@ class Lower:
             return self.stmt(n, ind)
         I = '  ' * ind
         return I + '{\n' + self.stmt(n, ind + 1) + '\n' + I + '}'
+
+    def ghost_after(self, k, ind):
+        """ghost statement hook after loop k (defined in the contracts header; may only assign xv_* ghost variables)"""
+        name = 'XV_GHOST_AFTER_%s_%d' % (self.cur_nm, k)
+        if self.have_macro(name):
+            return ['  ' * ind + name + ';']
+        return []
 
     def loop_tag(self):
         self.loopk += 1
